@@ -60,6 +60,8 @@ def to_model_lines(impl_lines, impl_out, prod_store=None):
             ml.append(vlib.line("ml.edit", f[1], *pkgs_fields(last_parse), f[2]))      # last field: the document text (code actions)
         elif op == "l.init":
             ml.append(vlib.line("ml.init", *f[1:]))
+        elif op == "l.initlate":
+            ml.append(vlib.line("ml.init", *f[2:]))       # a slow client changes nothing: the refresh waits for the answer
         elif op in ("l.start", "l.config", "l.cache", "l.tags", "l.now", "l.close", "l.action", "l.reply", "l.settle", "l.dump"):
             ml.append(vlib.line("m" + op, *f[1:]))
         else:
